@@ -67,16 +67,16 @@ def plan(tier, seed):
 
 def required(tier):
     return {
-        "runs_checked": 800, "records_checked": 3000, "sample_columns_checked": 7000, "tokens_compared_with_internal": 150000,
-        "records_assemble": 500, "records_call": 500, "records_call_exact": 500, "records_call_pedigree": 500,
-        "runs_report_none": 150, "runs_report_full": 150, "runs_report_singleton": 450, "runs_report_subset": 250,
-        "values_number_A": 3000, "values_number_R": 3000, "values_number_G": 800, "g_vectors_len_ge_100": 40,
-        "records_no_snv": 150, "sample_columns_no_reads": 300, "records_refmasked_assemble": 20, "records_refmasked_call": 150,
-        "records_noa": 40, "records_af0": 20, "records_mixed_ploidy": 700, "records_pooled": 150,
-        "records_pedigree_trio": 60, "records_pedigree_halfsib": 30, "records_pedigree_unobserved_parent": 30,
-        "gt_checked": 7000, "gt_partially_missing": 20, "alts_checked_against_input": 3000,
-        "info_totals_recomputed": 3000, "optional_info_sums_recomputed": 1200, "pysam_gts_compared": 7000,
-        "records_zero_prior_allele": 40,
+        "runs_checked": 900, "records_checked": 3500, "sample_columns_checked": 7000, "tokens_compared_with_internal": 500000,
+        "records_assemble": 800, "records_call": 700, "records_call_exact": 800, "records_call_pedigree": 700,
+        "runs_report_none": 150, "runs_report_full": 130, "runs_report_singleton": 400, "runs_report_subset": 250,
+        "values_number_A": 7000, "values_number_R": 25000, "values_number_G": 100000, "g_vectors_len_ge_100": 400,
+        "records_no_snv": 600, "sample_columns_no_reads": 700, "records_refmasked_assemble": 150, "records_refmasked_call": 400,
+        "records_noa": 150, "records_af0": 60, "lone_missing_vectors_on_noa_af0": 40, "records_mixed_ploidy": 900, "records_pooled": 300,
+        "records_pedigree_trio": 80, "records_pedigree_halfsib": 40, "records_pedigree_unobserved_parent": 80,
+        "gt_checked": 7000, "gt_partially_missing": 300, "gt_all_missing": 500, "alts_checked_against_input": 6000,
+        "info_totals_recomputed": 3500, "optional_info_sums_recomputed": 6000, "optional_info_values_seen": 4000,
+        "optional_format_values_seen": 9000, "sample_acp_afp_compared": 2000, "pysam_gts_compared": 7000, "records_zero_prior_allele": 250,
     }
 
 
@@ -94,40 +94,51 @@ class Case:
 
 
 def _pedigree(rng, names, ploidy_of, g):
-    """rows (sample, p, q) with parents at least as polyploid as the child; returns rows, kinds, extra samples"""
+    """rows (sample, p, q) with parents at least as polyploid as the child; returns rows, kinds, extra samples.
+
+    Hexaploid samples are founders only: call-pedigree aborts (AssertionError, NaN in pedigree/prior.py
+    trio_allele_log_pmf) for a hexaploid child with default gamete ploidy 3 - outside this property, reported separately."""
     order = sorted(names, key=lambda s: -ploidy_of[s])
     rows = {s: [".", "."] for s in names}
-    kinds = set()
     n = len(order)
+
+    def child(i, p, q):
+        if ploidy_of[order[i]] <= 4:
+            rows[order[i]] = [p, q]
+
     if n == 2:
-        rows[order[1]] = [order[0], "."] if rng.random() < 0.5 else [".", order[0]]
-        kinds.add("duo")
+        child(1, order[0], ".") if rng.random() < 0.5 else child(1, ".", order[0])
     elif n == 3:
         if g % 2 == 0:
-            rows[order[2]] = [order[0], order[1]]
-            kinds.add("trio")
+            child(2, order[0], order[1])
         else:
-            rows[order[1]] = [order[0], "."]
-            rows[order[2]] = [".", order[0]] if rng.random() < 0.5 else [order[0], "."]
-            kinds.add("halfsib")
+            child(1, order[0], ".")
+            child(2, ".", order[0]) if rng.random() < 0.5 else child(2, order[0], ".")
     elif n >= 4:
         if g % 2 == 0:
-            rows[order[2]] = [order[0], order[1]]
-            rows[order[3]] = [order[1], order[2]] if rng.random() < 0.5 else [order[0], order[1]]
-            kinds.add("trio")
+            child(2, order[0], order[1])
+            child(3, order[1], order[2]) if rng.random() < 0.5 else child(3, order[0], order[1])
         else:
-            rows[order[2]] = [order[0], order[1]]
-            rows[order[3]] = [order[0], "."]
-            kinds.update(["trio", "halfsib"])
+            child(2, order[0], order[1])
+            child(3, order[0], ".")
     extra = []
+    kinds = set()
     if rng.random() < 0.35:
         # an unobserved parent (no BAM): appended by the program as an extra sample
-        cands = [s for s in names if "." in rows[s]]
+        cands = [s for s in names if "." in rows[s] and ploidy_of[s] <= 4]
         if cands:
             s = cands[int(rng.integers(len(cands)))]
             rows[s][rows[s].index(".")] = "U1"
             extra.append("U1")
             kinds.add("unobserved")
+    known = [[p for p in rows[s] if p != "."] for s in names]
+    if any(len(k) == 2 for k in known):
+        kinds.add("trio")
+    elif any(known):
+        kinds.add("duo")
+    parents_used = [p for k in known for p in set(k)]
+    if any(parents_used.count(p) >= 2 for p in set(parents_used)):
+        kinds.add("halfsib")
     return rows, kinds, extra
 
 
@@ -489,7 +500,8 @@ def check_run(c, prog, kind, report, out, captured, col, replay):
         if k not in header.format:
             v0("requested-field-not-declared-in-header", "FORMAT %s requested but not declared" % k)
     nontrivial = False
-    for rec in recs:
+    def one_record(rec):
+        nonlocal nontrivial
         viol = make_viol(rec)
         col.count("records_checked")
         col.count("records_" + ptag)
@@ -504,7 +516,7 @@ def check_run(c, prog, kind, report, out, captured, col, replay):
                 mech = TRAILING
             viol(mech, msg)
         if fatal:
-            continue
+            return
         filt = set(rec.filter.replace(",", ";").split(";"))
         invalid = bool(filt & {"NOA", "AF0"})
         unknown = filt - {"PASS", "NOA", "AF0"}
@@ -785,6 +797,12 @@ def check_run(c, prog, kind, report, out, captured, col, replay):
                 viol("header-samples-differ-from-command-line", "record formatted for samples %s, header has %s" % (snap["samples"], header.samples))
             else:
                 col.count("tokens_compared_with_internal", compare_with_internal(snap, rec, header, viol))
+    for rec in recs:
+        try:
+            one_record(rec)
+        except ValueError as ex:
+            # int()/float() of an emitted token failed inside the oracle: the token is not a number of the declared type
+            make_viol(rec)("numeric-field-does-not-parse", "a numeric INFO/FORMAT token does not parse: %s" % ex)
     # ---- (6) pysam second opinion
     if recs:
         nviol[0] += pysam_opinion(c, prog, report, out, header, recs, col, replay)
@@ -866,16 +884,19 @@ def run_one(c, prog, kind, report, col, base_ok):
         chain = exc_chain(exc)
         asked = {t.split("/")[-1] for t in report}
         trailing = prog in ("call", "call-pedigree") and c.use_prior and any(r["zero"] == "last" for r in c.hap_records)
-        if trailing and (asked & AFP_FAMILY) and "broadcast" in chain:
-            mech = TRAILING
-        elif base_ok:
-            mech = "report-option-makes-program-fail"
-        else:
-            mech = "program-fails-on-generated-input"
-        col.violation(mech, "%s --report %s raised %s\n  argv: %s\n  input haplotype records: %s" % (
+        what = "%s --report %s raised %s\n  argv: %s\n  input haplotype records: %s" % (
             prog, " ".join(report) or "(none)", chain, " ".join(args),
-            [(r["contig"], r["pos0"] + 1, len(r["alts"]) + 1, r["info"]) for r in c.hap_records][:6] if prog != "assemble" else "n/a"), replay)
+            [(r["contig"], r["pos0"] + 1, len(r["alts"]) + 1, r["info"]) for r in c.hap_records][:6] if prog != "assemble" else "n/a")
         col.case(replay, nontrivial=False)
+        if trailing and (asked & AFP_FAMILY) and "broadcast" in chain:
+            col.violation(TRAILING, what, replay)
+        elif kind != "none" and base_ok:
+            # the same dataset and options ran without --report: the report option breaks the output
+            col.violation("report-option-makes-program-fail", what, replay)
+        else:
+            # no output to judge; not a statement about emitted records -> the run is inconclusive, not a violation
+            col.count("runs_program_failed_without_report")
+            col.inconclusive_note("program failed on generated input (nothing emitted to judge): " + what[:700])
         return False
     nv, nontrivial = check_run(c, prog, kind, report, out, cap.items, col, replay)
     col.count("runs_checked")
@@ -898,6 +919,8 @@ def run_shard(tier, seed, spec, col):
                     ok = run_one(c, prog, kind, report, col, base_ok)
                     if kind == "none":
                         base_ok = ok
+                        if not ok:
+                            break
             if dI == 0 and spec["shard"] in (0, 5):
                 out, exc = cli.run_inproc(argv_for(c, "call-exact", ["GP", "AFP"]))
                 lines = cli.record_lines(out)
